@@ -556,3 +556,63 @@ func vh_C05_AtScale() {
 		vfReach("end")
 	}
 }
+
+// stream-set union when the receiver's streams have SPARE CAPACITY behind them (two windows of one array; a stream grown
+// by append): x is in the union's stream under a key iff it is in one of the operands' streams under that key, the
+// receiver's streams are unchanged, and two unions of one receiver do not disturb each other - for both families
+func vh_C05_law_StreamSetSpareCapacity() {
+	vfSetMapOrder(2)
+	a, b, c, d, e, f, g := vfInt("a"), vfInt("b"), vfInt("c"), vfInt("d"), vfInt("e"), vfInt("f"), vfInt("g")
+	arr := []int{a, b, c, d}
+	probe := vfInt("probe")
+	inK1 := vfOr(vfOr(probe == a, probe == b), vfOr(probe == e, probe == f))
+	inK1g := vfOr(vfOr(probe == a, probe == b), probe == g)
+	if vfChoose("family", 2) == 0 {
+		w1, w2 := StreamDef[int](arr[:2]), StreamDef[int](arr[2:])
+		recv := StreamSetFromMap(map[int]*StreamDef[int]{1: &w1, 2: &w2})
+		var u1, u2 *StreamSetDef[int, int]
+		if !vfNoPanic("nopanic", func() {
+			u1 = recv.Union(StreamSetFromMap(map[int]*StreamDef[int]{1: StreamFromArray([]int{e, f})}))
+			u2 = recv.Union(StreamSetFromMap(map[int]*StreamDef[int]{1: StreamFromArray([]int{g})}))
+		}) {
+			return
+		}
+		vfAssert("union-stream-member", vfMember([]int(*u1.MapSetDef[1]), probe) == inK1)
+		vfAssert("union-stream-member", vfMember([]int(*u2.MapSetDef[1]), probe) == inK1g)
+		vfAssert("union-other-key-untouched", vfAnd(vfSliceEq([]int(*u1.MapSetDef[2]), []int{c, d}), vfSliceEq([]int(*u2.MapSetDef[2]), []int{c, d})))
+		vfAssert("operands-unmodified", vfAnd(vfSliceEq([]int(w1), []int{a, b}), vfSliceEq([]int(w2), []int{c, d})))
+	} else {
+		barr := c05Box(arr)
+		w1, w2 := StreamForInterfaceDef(barr[:2]), StreamForInterfaceDef(barr[2:])
+		recv := StreamSetForInterface.Clone()
+		recv.Set(1, &w1)
+		recv.Set(2, &w2)
+		arg := func(vs ...int) *StreamSetForInterfaceDef {
+			s := StreamSetForInterface.Clone()
+			s.Set(1, StreamForInterface.FromArray(c05Box(vs)))
+			return s
+		}
+		var u1, u2 *StreamSetForInterfaceDef
+		if !vfNoPanic("nopanic", func() { u1 = recv.Union(arg(e, f)); u2 = recv.Union(arg(g)) }) {
+			return
+		}
+		s1, _ := u1.Get(1).(*StreamForInterfaceDef)
+		s2, _ := u2.Get(1).(*StreamForInterfaceDef)
+		o1, _ := u1.Get(2).(*StreamForInterfaceDef)
+		o2, _ := u2.Get(2).(*StreamForInterfaceDef)
+		if s1 == nil || s2 == nil || o1 == nil || o2 == nil {
+			vfAssert("union-streams-present", false)
+			return
+		}
+		vfAssert("union-stream-member", vfMember(c05U(s1), probe) == inK1)
+		vfAssert("union-stream-member", vfMember(c05U(s2), probe) == inK1g)
+		vfAssert("union-other-key-untouched", vfAnd(vfSliceEq(c05U(o1), []int{c, d}), vfSliceEq(c05U(o2), []int{c, d})))
+		vfAssert("operands-unmodified", vfAnd(vfSliceEq(c05U(&w1), []int{a, b}), vfSliceEq(c05U(&w2), []int{c, d})))
+	}
+	vfReach("end")
+}
+
+func c05U(s *StreamForInterfaceDef) []int {
+	u, _ := c05Unbox([]interface{}(*s))
+	return u
+}
